@@ -200,8 +200,11 @@ def commaNats (l : List Nat) : Str := joinWith [','] (l.map showNat)
 /-- `order=[k,…,1]` -/
 def orderList (k : Nat) : List Nat := (List.range k).reverse.map (· + 1)
 
+/-- `len(value.encode('utf-8'))` -/
+def utf8Len (s : Str) : Nat := (s.map Char.utf8Size).sum
+
 def fortranType (p : Param) (rendered : Str) : Option Str :=
-  if p.kind = Kind.str then some (cs!"character(len=" ++ showNat rendered.length ++ [')'])
+  if p.kind = Kind.str then some (cs!"character(len=" ++ showNat (utf8Len rendered) ++ [')'])
   else lookupType bFortran p.kind p.bits
 
 def lineFortran (ren : Bool) (p : Param) : Option Str := do
@@ -279,10 +282,20 @@ def exportBash (exp : Bool) (ren : Bool) (data : List Param) : Option Str := do
 
 /-! ## DIP text (`ExportConfig.parse`, `_parse_dip_scalar`, `_parse_dip_array`) -/
 
-/-- one character of a string element of an array value: `json.dumps` then `\"`, `\\` and `'`
-    rewritten as unicode escapes (printable ASCII: `json.dumps` escapes nothing else) -/
+def hexDigit (d : Nat) : Char := if d < 10 then Char.ofNat (48 + d) else Char.ofNat (87 + d)
+
+/-- `\\uXXXX` with lower-case digits, as `json.dumps` writes a 16-bit code unit -/
+def jsonU (n : Nat) : Str :=
+  ['\\', 'u', hexDigit (n / 4096 % 16), hexDigit (n / 256 % 16), hexDigit (n / 16 % 16), hexDigit (n % 16)]
+
+/-- one character of a string element of an array value: `json.dumps` (ensure_ascii: a character
+    outside ASCII becomes `\\uXXXX`, beyond the BMP a surrogate pair), then `\\"`, `\\\\` and `'`
+    rewritten as unicode escapes (printable characters: `json.dumps` escapes nothing else) -/
 def dipElemChar (c : Char) : Str :=
-  if c = '"' then cs!"\\u0022" else if c = '\\' then cs!"\\u005c" else if c = '\'' then cs!"\\u0027" else [c]
+  if c = '"' then cs!"\\u0022" else if c = '\\' then cs!"\\u005c" else if c = '\'' then cs!"\\u0027"
+  else if c.toNat < 128 then [c]
+  else if c.toNat < 65536 then jsonU c.toNat
+  else jsonU (55296 + (c.toNat - 65536) / 1024) ++ jsonU (56320 + (c.toNat - 65536) % 1024)
 
 def dipScalar (element : Bool) : Scalar → Str
   | .s v => if element then '"' :: v.flatMap dipElemChar ++ ['"']
